@@ -7,15 +7,20 @@ from . import paths as P
 from . import C02
 
 EXPLANATION = (
-    "Decides structural necessary conditions of C05 from MIR: (R1) IndexKind::from evaluated over {Flat,SingleLatestPerKey} x "
-    "{Any,Exact} x {KeyAuthor,AuthorKey} selects the key-ordered index iff (Flat,Any,KeyAuthor) or SingleLatestPerKey, sets "
-    "latest_per_key iff SingleLatestPerKey and passes the query's own filters through; (R2) QueryIterator::new replaces the key "
-    "filter by Any only on the branch where the bounds were built from that same filter, and the author filter / selector reach "
-    "the key-ordered variant; (R3) prefix bounds are exact (shared with C02.R3); (R4) LatestPerKeySelector::push keeps the entry "
-    "with the Greater timestamp within a key, emits on key change and at the end; (R5) QueryIterator::next: nothing is fetched "
-    "once the limit is reached, only Some(Ok(_)) items are skipped for the offset, both physical paths honour include_empty, "
-    "value_is_empty and Record::is_empty test the hash against Hash::EMPTY, KeyFilter/AuthorFilter::matches have the documented "
-    "meaning; (R6) a by-key index id without a record is skipped, not an error. NOT decided: exact result sets for all states."
+    'Decides structural necessary conditions of C05 from MIR: (R1) IndexKind::from evaluated over {Flat,SingleLatestPerKey}'
+    ' x {Any,Exact} x {KeyAuthor,AuthorKey} selects the key-ordered index iff (Flat,Any,KeyAuthor) or SingleLatestPerKey, '
+    "sets latest_per_key iff SingleLatestPerKey and passes the query's own filters through; (R2) QueryIterator::new "
+    'replaces the key filter by Any only on the branch where the bounds were built from that same filter, and the author '
+    'filter / selector reach the key-ordered variant; (R3) prefix bounds are exact (shared with C02.R3); (R4) '
+    'LatestPerKeySelector::push keeps the entry with the Greater timestamp within a key, emits on key change and at the '
+    'end; (R5) QueryIterator::next is evaluated repeatedly, with its state kept between calls, over abstract table scans on'
+    ' 240 (table, index path, include_empty, offset, limit) cells and must yield exactly what the query describes: filters '
+    "on the row's own key/author, latest entry per key with deletion markers taking part in the selection and dropped "
+    'afterwards unless requested, offset counted over yielded entries only, nothing read once the limit is reached; '
+    'value_is_empty and Record::is_empty test the hash against Hash::EMPTY, KeyFilter/AuthorFilter::matches have the '
+    'documented meaning; (R6) RecordsByKeyRange::next_filtered evaluated on short index sequences: an index id whose record'
+    ' is gone is skipped and the scan continues, a rejected id is not looked up, errors are reported. NOT decided: exact '
+    'result sets for all states.'
 )
 ASSUMPTIONS = ["redb range iteration order = tuple key order", "tables identified by type"]
 
